@@ -41,15 +41,26 @@ DecBad(ev) ==
 
 RecsOf(ev, names, prop) == [j \in 1..Len(names) |-> [line |-> l, i |-> ev.i, k |-> j, what |-> names[j], props |-> <<prop>>, kf |-> "none"]]
 
+(* large inputs: lengths 2n and 4*ceil(n/3), '=' padding of the last group, and decoding gives the bytes back *)
+EncBigBad(ev) ==
+    LET n == ev.n
+        pad == (3 - (n % 3)) % 3
+        tl == ev.tail IN
+    IF ev.res # "ok" THEN <<"large input: exception">>
+    ELSE (IF ev.hexlen = 2 * n /\ ev.b64len = 4 * ((n + 2) \div 3) THEN <<>> ELSE <<"large input: encoded length">>)
+      \o (IF Len(tl) = 4 /\ (\A k \in 1..4 : (tl[k] = 61) <=> (k > 4 - pad)) THEN <<>> ELSE <<"large input: padding">>)
+      \o (IF ev.hex_back = 1 /\ ev.b64_back = 1 /\ ev.b64_back_cb = 1 /\ ev.hex_back_cb = 1 /\ ev.b64_null = n /\ ev.hex_null = n
+          THEN <<>> ELSE <<"large input: decoding back">>)
+TEncBig == Ev.e = "encbig" /\ book' = BookAdd(book, RecsOf(Ev, EncBigBad(Ev), "C14")) /\ ndec' = ndec + 8
 TPlatform == Ev.e = "Platform" /\ UNCHANGED <<book, ndec>>
 TEnc == Ev.e = "enc" /\ book' = BookAdd(book, RecsOf(Ev, EncBad(Ev), "C14")) /\ ndec' = ndec + 11
 TDec == Ev.e = "dec" /\ book' = BookAdd(book, RecsOf(Ev, DecBad(Ev), "C15")) /\ ndec' = ndec + 2 + Len(Ev.sized)
 TAbnormal == /\ Ev.e = "Abnormal"
              /\ book' = BookAdd(book, << [line |-> l, i |-> Ev.i, k |-> 0, what |-> "abnormal",
-                                          props |-> IF "e" \in DOMAIN Ev.during /\ Ev.during.e = "enc" THEN <<"C14">> ELSE <<"C15">>,
+                                          props |-> IF "e" \in DOMAIN Ev.during /\ Ev.during.e \in {"enc", "encbig"} THEN <<"C14">> ELSE <<"C15">>,
                                           kf |-> "none"] >>)
              /\ UNCHANGED ndec
-TStep == /\ ~done /\ l <= Len(TraceLog) /\ (TPlatform \/ TEnc \/ TDec \/ TAbnormal) /\ l' = l + 1 /\ done' = FALSE
+TStep == /\ ~done /\ l <= Len(TraceLog) /\ (TPlatform \/ TEnc \/ TEncBig \/ TDec \/ TAbnormal) /\ l' = l + 1 /\ done' = FALSE
 TFinish == /\ ~done /\ l = Len(TraceLog) + 1
            /\ ndJsonSerialize(OutFile, << [lines |-> Len(TraceLog), nrej |-> book.nrej, kfn |-> book.kfn,
                                            n_decided |-> ndec, rej |-> book.rej] >>)
